@@ -140,6 +140,11 @@ impl StateMachine<'_> {
                 }
             }
 
+            // The previous hunk is over: its last removed/added lines are not held back until
+            // the first line of this one arrives (with which the header itself is written).
+            self.painter.paint_buffered_minus_and_plus_lines();
+            self.painter.emit()?;
+
             self.state = HunkHeader(
                 diff_type,
                 parsed_hunk_header,
